@@ -100,6 +100,15 @@ def gen_case(rng, params, idx):
         pos = [{"n": f"a{j}", "t": _gen_t(rng, classes)} for j in range(npos)]
         methods.append({"mid": i, "pos": pos, "kw": [], "prio": rng.choice([0, 0, 1]),
                         "kind": rng.choice(["leaf", "leaf", "next", "fnext", "rec", "nextalt"])})
+    tie = rng.random() < 0.3
+    if tie:
+        # a class-predicate method and a value-dependent method tied at the same position (same priority): a value
+        # that fails the condition falls through to the predicate method - the predicate is asked once per class
+        j = rng.randrange(npos)
+        methods[0]["pos"][j]["t"] = ["CC", rng.choice(["nobase", "isk", "nobase"])]
+        methods[1]["pos"][j]["t"] = rng.choice([["D", "int", "ge3"], ["D", "int", "even"], ["L", 1], ["L", 2, 3],
+                                               ["D", rng.choice(classes), "never"], ["D", "object", "falsy"]])
+        methods[0]["prio"] = methods[1]["prio"] = 0
     extra = {"mid": 100, "pos": [{"n": f"a{j}", "t": _gen_t(rng, classes)} for j in range(npos)], "kw": [],
              "prio": rng.choice([0, 1]), "kind": "leaf"}
     spec = {"hier": hier, "methods": methods, "npos": npos, "late": extra}
@@ -108,6 +117,8 @@ def gen_case(rng, params, idx):
     vals = gen.values_for(hier, builtin=False) + [["v", 1], ["v", 2], ["v", 7], ["v", "s"], ["v", True], ["v", 2.5]]
     cg = gen.CallGen(spec, vals)
     spec["calls"] = [cg.call(rng, p_kw=0) for _ in range(12)]
+    if tie:
+        spec["tie"] = True
     spec["order2"] = rng.sample(range(12), 12)
     spec["order4"] = rng.sample(range(12), 12)
     return spec
@@ -130,6 +141,8 @@ def check_case(spec, res):
         res.count("unbuildable")
         return
     res.count("programs")
+    if spec.get("tie"):
+        res.count("programs_predicate_tied_with_dependent")
     res.sample({k: spec[k] for k in ("hier", "methods", "npos", "late")} | {"calls": spec["calls"][:3]})
 
     derived = []
